@@ -34,7 +34,8 @@ def run(ctx):
     ctx.assumptions += ["txid hash values recomputed by python hashlib; SHA-256d uninterpreted in the spec",
                         "the marker rule (zero input count, zero output count, 00 00 00 EF) defines the extended format as in TxWire.tla"]
     # the varint codec, for every value below 2^31 (symbolic; TLC only samples values)
-    ctx.apalache("VarIntInd.tla", "RoundTrip")
+    if ctx.tier == "thorough":
+        ctx.apalache("VarIntInd.tla", "RoundTrip")
     cases = txwire.model_cases(ctx, want_tx=True)
     ctx.cov["tlc_generated_cases"] = len(cases)
     cases = txwire.sample_cases(ctx, cases, ctx.pick(2500, 150000))
